@@ -530,6 +530,60 @@ def gen_text(rng):
     return "T:%s|" % eol + ";".join(interleave(rng, qs, rng.choice([0, 2, 4, 8, 12]), tail))
 
 
+TEXT_CAP = 1024     # recurseDepth cap of PlainTextMessageIOGateway::DoOutputImplementationAux (model: c_text_max_recurse)
+
+
+def gen_text_long(rng):
+    """text Messages with about / more than 1024 lines: one DoOutput() call stops at the recursion cap in the middle of
+    a Message (current line fully written, later lines unsent); HasBytesToOutput() is printed after every call and the
+    harness finishes with a HasBytesToOutput()-driven pump"""
+    eol = rng.choice(["0d0a", "0d", "0a"])
+    nl = rng.choice([TEXT_CAP - 1, TEXT_CAP, TEXT_CAP + 1, TEXT_CAP + 1, 2 * TEXT_CAP - 1, 2 * TEXT_CAP, 2 * TEXT_CAP + 1, 3000])
+    line = lambda: hexs(bytes(rng.choice(b"abc") for _ in range(rng.choice([0, 1, 1, 2]))))
+    ops = []
+    if rng.random() < 0.3:
+        ops.append("q:" + ",".join(line() for _ in range(rng.choice([1, 2, 5]))))
+    ops.append("q:" + ",".join(line() for _ in range(nl)))
+    later = ["q:" + line()] if rng.random() < 0.3 else []
+    if later and rng.random() < 0.5:
+        ops += later
+        later = []
+    for _ in range(rng.choice([1, 1, 2, 4])):
+        r = rng.random()
+        if r < 0.6:      # a call that can write whole lines until the cap stops it
+            ops.append("o:%d:%d*%d" % (NOLIM, NOLIM, rng.choice([TEXT_CAP + 5, 4000])))
+        elif r < 0.8:    # the transport blocks after fewer writes than the cap
+            ops.append("o:%d:%d*%d" % (NOLIM, NOLIM, rng.choice([1, 100, TEXT_CAP - 1, TEXT_CAP])))
+        else:            # a byte budget that runs out first / short writes
+            ops.append("o:%d:%s" % (rng.choice([1, 50, 2000, NOLIM]), ",".join(str(rng.choice([1, 2, NOLIM])) for _ in range(rng.choice([3, 40])))))
+        if rng.random() < 0.5:
+            ops.append("i:%d:%d*%d" % (NOLIM, NOLIM, rng.choice([1, 3])))
+        if later and rng.random() < 0.3:
+            ops += later
+            later = []
+    ops.append("i:%d:%d*4" % (NOLIM, NOLIM))
+    return "T:%s|" % eol + ";".join(ops)
+
+
+def gen_many_units(rng):
+    """the other gateways have no per-call iteration cap; the analogous stress: far more than 1024 small units (Messages,
+    chunks) leave in ONE DoOutput() call"""
+    n = rng.choice([TEXT_CAP + 1, 1500])
+    kind = rng.choice(["F", "R", "S", "T", "WS", "MC", "CM"])
+    if kind in ("F", "WS", "MC", "CM"):
+        qs = ["q:" + hexs(flat_msg(i % 7)) for i in range(n)]
+        head = {"F": "F:0:%d" % NOLIM}.get(kind, kind)
+    elif kind == "T":
+        qs = ["q:" + hexs(bytes([0x61 + i % 3])) for i in range(n)]
+        head = "T:0a"
+    else:
+        per = rng.choice([1, 3])
+        qs = ["q:" + ",".join(hexs(bytes([1 + (i + j) % 200])) for j in range(per)) for i in range(n // per)]
+        head = "R:0:%d" % NOLIM if kind == "R" else "S"
+    ops = qs + ["o:%d:%d*6000" % (NOLIM, NOLIM), "i:%d:%d*6000" % (NOLIM, NOLIM)] * 2
+    return head + "|" + ";".join(ops)
+
+
 def gen_text_foreign(rng):
     """byte soup with CR/LF/NUL put straight on the wire in pieces (oracle off)"""
     alpha = [13, 10, 13, 10, 0, 0x61, 0x62, 0x63, 0x20, 0xff]
@@ -695,9 +749,11 @@ class CHECK(vlib.Check):
                 "text lines free of CR/LF/NUL; raw/SLIP chunks non-empty (stated domain boundaries)"]
     rule = ("op scripts (queue Message / DoOutput(max) with a per-Write byte-count script / DoInput(max) with a per-Read "
             "script / raw injection) over a sender and a receiver gateway joined by a scripted DataIO; after EVERY call the "
-            "return value, the bytes moved, the Messages delivered and the internal cursors (and template caches) of both ends "
-            "are compared with the extracted Coq model; the harness evaluates prefix-safety after every DoInput and "
-            "completeness at the end. Non-trivial = at least one Message queued or bytes injected and at least one DoInput call.")
+            "return value, the bytes moved, the Messages delivered, the internal cursors (and template caches) of both ends "
+            "and the sender's HasBytesToOutput() are compared with the extracted Coq model; the harness evaluates prefix-safety "
+            "after every DoInput and, after the scripted calls, pumps the pair the way an event loop does (DoOutput only while "
+            "HasBytesToOutput() says true, unlimited transport, receiver drained) and then requires delivered == queued "
+            "(HasBytesToOutput() false implies nothing unsent). Non-trivial = at least one Message queued or bytes injected and at least one DoInput call.")
 
     def gen_cases(self, rng, tier):
         n = 500 if tier == "quick" else 6000
@@ -727,6 +783,10 @@ class CHECK(vlib.Check):
             out.append(("templating-pressure", gen_tmpl_pressure(rng)))
             if j % 5 == 0:
                 out.append(("templating-pressure-oracle", gen_tmpl_pressure(rng, enc=rng.choice([0, 1, 6, 9]), model=False)))
+        for j in range(16 if tier == "quick" else 160):
+            out.append(("text-recursion-cap", gen_text_long(rng)))
+        for j in range(4 if tier == "quick" else 40):
+            out.append(("many-units-per-call", gen_many_units(rng)))
         for j in range(10 if tier == "quick" else 100):
             for head in ("UC", "CU"):
                 out.append(("c-gateways-oracle", gen_c_gateway(rng, head)))
